@@ -6,6 +6,7 @@ package main
 import (
 	"fmt"
 	"go/constant"
+	"go/token"
 	"go/types"
 	"sort"
 	"strings"
@@ -278,6 +279,19 @@ func (c *Ctx) defensiveOnCallbackStore(f *ssa.Function, r *ssa.Return) bool {
 	commit := c.commitFuncs()
 	for _, bf := range branchFacts(f) {
 		curEnv = bf.A.Env
+		if bf.A.Kind == "const" && bf.Holds && (bf.E.To() == r.Block() || bf.E.To().Dominates(r.Block())) {
+			// `if len(claimed) == 0 { return internal error }` on a slice the critical section fills on every success path
+			// with a value known not to be empty
+			if k, isInt := constInt(bf.A.C); isInt && k == 0 {
+				if cl, _ := callOf(bf.A.X); cl != nil && calleeFullName(&cl.Call) == "builtin len" && len(cl.Call.Args) == 1 {
+					if u, ok := strip(cl.Call.Args[0]).(*ssa.UnOp); ok {
+						if cell := cellOf(u.X); cell != nil && c.filledNonEmptyByCallback(f, cell) {
+							return true
+						}
+					}
+				}
+			}
+		}
 		if bf.A.Kind != "nil" || !bf.Holds {
 			continue
 		}
@@ -408,6 +422,7 @@ func ruleVD2(c *Ctx) {
 		return
 	}
 	n := 0
+	clearing := c.replayClearingStates()
 	for _, em := range c.emissions() {
 		if !em.has("state") || c.isReplayOrCompact(em.Fn) {
 			continue
@@ -437,6 +452,13 @@ func ruleVD2(c *Ctx) {
 		g2 := guardNil(f, vci, func(args []ssa.Value) bool { return len(args) == 2 && c.canon(args[0]) == nsCanon })
 		d1 := mustPassEdges(f, em.Call.Block(), g1)
 		d2 := mustPassEdges(f, em.Call.Block(), g2)
+		// a constant new state on which replay itself clears the claimant (todo/done/canceled) cannot leave a pair the
+		// invariant forbids: the state event's own replay produces (state, "") whatever the claimant was
+		if s, isC := constString(ns); d1 && !d2 && isC && clearing[s] {
+			c.ok(fn, construct, pos, "dominated by validateTransition(task.State, new)==nil; new is the constant "+s+", on which replay clears the claimant, so the recorded pair is ("+s+", unclaimed)")
+			c.checkTaskProvenance(f, taskBase, fn, construct+"|task-origin", pos)
+			continue
+		}
 		if d1 && d2 {
 			c.ok(fn, construct, pos, "dominated by validateTransition(task.State, new)==nil and validateClaimInvariant(new, _)==nil with new = "+nsCanon)
 			// validated change is recorded: from the guards' pass edges no success return is reachable avoiding the emission
@@ -446,7 +468,7 @@ func ruleVD2(c *Ctx) {
 				if e.To() == em.Call.Block() {
 					continue
 				}
-				for _, r := range successReturns(f) {
+				for _, r := range c.nonFailingReturns(f) {
 					if region[r.Block()] {
 						skip = c.Pos(r.Pos())
 					}
@@ -590,8 +612,9 @@ func ruleVD3(c *Ctx) {
 			}
 			guards := guardNil(f, vci, nil)
 			// form iii: no guard-free feasible path entry ~> emission ~> success return
+			// (a return that hands on a call's error - `return appendEvents(path, events)` - succeeds whenever that call does)
 			targets := map[*ssa.BasicBlock]bool{}
-			for _, r := range successReturns(f) {
+			for _, r := range c.nonFailingReturns(f) {
 				targets[r.Block()] = true
 			}
 			// an emission built in a helper that validates by itself under a condition it is handed
@@ -824,4 +847,150 @@ func ruleVD14(c *Ctx) {
 		}
 	}
 	_ = n
+}
+
+// filledNonEmptyByCallback: in a lock callback of f, a store into cell dominates every success return and the stored
+// slice is known to hold at least one element (nonEmptySlice).
+func (c *Ctx) filledNonEmptyByCallback(f *ssa.Function, cell *ssa.Alloc) bool {
+	for _, ls := range c.F.LockSites {
+		if ls.Fn != f || ls.Callback == nil {
+			continue
+		}
+		cb := ls.Callback
+		for _, st := range cellStores(cell) {
+			if st.Parent() != cb {
+				continue
+			}
+			all := true
+			for _, sr := range c.nonFailingReturns(cb) {
+				if !(st.Block() == sr.Block() || st.Block().Dominates(sr.Block())) {
+					all = false
+				}
+			}
+			if all && len(c.nonFailingReturns(cb)) > 0 && nonEmptySlice(st.Val, st.Block(), map[ssa.Value]bool{}, 0) {
+				return true
+			}
+		}
+	}
+	return false
+}
+
+// nonEmptySlice: at block at, the slice v has at least one element: a failing `len(v) == 0` test dominates at, or v is
+// a prefix w[:k] of such a slice with k >= 1 (atLeastOne), or a phi of such values.
+func nonEmptySlice(v ssa.Value, at *ssa.BasicBlock, seen map[ssa.Value]bool, d int) bool {
+	if v == nil || d > 6 {
+		return false
+	}
+	if _, isPhi := strip(v).(*ssa.Phi); isPhi {
+		if seen[v] {
+			return false
+		}
+		seen[v] = true
+	}
+	f := at.Parent()
+	for _, bf := range branchFacts(f) {
+		if len(bf.A.Env) != 0 || bf.A.Kind != "const" || bf.Holds {
+			continue
+		}
+		if k, isInt := constInt(bf.A.C); !isInt || k != 0 {
+			continue
+		}
+		cl, _ := callOf(bf.A.X)
+		if cl == nil || calleeFullName(&cl.Call) != "builtin len" || strip(cl.Call.Args[0]) != strip(v) {
+			continue
+		}
+		if bf.E.To() == at || bf.E.To().Dominates(at) {
+			return true
+		}
+	}
+	switch x := strip(v).(type) {
+	case *ssa.Phi:
+		for _, e := range x.Edges {
+			if !nonEmptySlice(e, at, seen, d+1) {
+				return false
+			}
+		}
+		return len(x.Edges) > 0
+	case *ssa.Slice:
+		if x.Low != nil {
+			if k, ok := constInt(x.Low); !ok || k != 0 {
+				return false
+			}
+		}
+		if x.High == nil {
+			return nonEmptySlice(x.X, at, seen, d+1)
+		}
+		return atLeastOne(x.High) && nonEmptySlice(x.X, at, seen, d+1)
+	}
+	return false
+}
+
+// atLeastOne: the integer v is a constant >= 1, or a parameter (possibly captured by a closure, never reassigned) that
+// its function rejects below 1 on entry (`if n < 1 { return err }` / `n <= 0`) before the closure is created.
+func atLeastOne(v ssa.Value) bool {
+	if k, ok := constInt(v); ok {
+		return k >= 1
+	}
+	v = resolve(v)
+	var user ssa.Instruction // where, in the parameter's function, the value is handed on (closure creation)
+	for d := 0; d < 3; d++ {
+		u, ok := v.(*ssa.UnOp)
+		if !ok || u.Op != token.MUL {
+			break
+		}
+		fv, ok := u.X.(*ssa.FreeVar)
+		if !ok {
+			break
+		}
+		b := bindingOf(fv)
+		al, ok := b.(*ssa.Alloc)
+		if !ok {
+			return false
+		}
+		sts := cellStores(al)
+		if len(sts) != 1 {
+			return false
+		}
+		for _, r := range *al.Referrers() {
+			if mc, ok := r.(*ssa.MakeClosure); ok {
+				user = mc
+			}
+		}
+		v = resolve(sts[0].Val)
+	}
+	prm, ok := v.(*ssa.Parameter)
+	if !ok {
+		return false
+	}
+	g := prm.Parent()
+	for _, bf := range branchFacts(g) {
+		if len(bf.A.Env) != 0 || bf.A.Kind != "cmp" || !bf.Holds {
+			continue
+		}
+		if resolve(bf.A.X) != ssa.Value(prm) {
+			continue
+		}
+		k, isC := constInt(bf.A.Y)
+		if !isC || !(bf.A.Op == token.LSS && k == 1 || bf.A.Op == token.LEQ && k == 0) {
+			continue
+		}
+		// the rejecting edge only leads to failing returns, and the test dominates the use
+		failing := true
+		for b := range reach(bf.E.To(), nil, nil) {
+			for _, in := range b.Instrs {
+				if r, ok := in.(*ssa.Return); ok {
+					if len(r.Results) == 0 || isNilConst(returnedValue(r, len(r.Results)-1)) {
+						failing = false
+					}
+				}
+			}
+		}
+		if !failing {
+			continue
+		}
+		if user == nil || bf.E.From.Dominates(user.Block()) {
+			return true
+		}
+	}
+	return false
 }
